@@ -3,7 +3,7 @@ import ast
 from ..fn import World
 from ..index import AnalysisError, dotted
 from ..astutil import text, short, endswith, calls_in, walk_no_nested
-from ._h_F import ifn, Res, res_of, atoms, sole_arg, need
+from ._h_F import ifn, Res, res_of, atoms, sole_arg, need, repo_callees
 
 from . import _c22_idem
 
@@ -14,7 +14,9 @@ EXPLANATION = (
   "has an outer type accepted by that type's is_right_type() (read from its own source), or is a "
   "str (alt-text). Tags are inferred from constructors, literals, isinstance guards on the "
   "returned name, local assignments and, across calls, the returns of the repo's own helpers. "
-  "Container results are checked at the outer tag only. (R3) decides idempotence of do_convert() "
+  "Container results are checked at the outer tag, and -- where is_right_type demands a type of "
+  "every element (ChoiceList: str) -- at the tags of the elements placed in the returned "
+  "tuple/list. (R3) decides idempotence of do_convert() "
   "on its own constructed results by result classes: each class of constructed result is fed back "
   "through the same function's CFG and every return it can reach must be a fixpoint (see "
   "_c22_idem docstring); what that small theory cannot prove equal is reported as undecided, not "
@@ -423,6 +425,73 @@ class Tagger(object):
     return {"any"}
 
 
+def _elem_accept(w, ci):
+  """Tags is_right_type demands of the *elements* of a container value, read from a conjunct
+  `all(isinstance(<item>, T) for <item> in <value>)`; None when it demands nothing of them."""
+  m = w.repo.find_method(ci, "is_right_type")
+  if m is None:
+    return None
+  r = res_of(w, w.fn_of(m))
+  e0 = r.result_expr()
+  if e0 is None:
+    return None
+  p = m.params()[1]
+  for x in ast.walk(e0):
+    if isinstance(x, ast.Call) and dotted(x.func) == "all" and len(x.args) == 1 and \
+        isinstance(x.args[0], (ast.GeneratorExp, ast.ListComp)):
+      g = x.args[0]
+      if len(g.generators) == 1 and not g.generators[0].ifs and \
+          text(g.generators[0].iter) == p and isinstance(g.elt, ast.Call) and \
+          dotted(g.elt.func) == "isinstance" and len(g.elt.args) == 2 and \
+          text(g.elt.args[0]) == text(g.generators[0].target):
+        return _type_tags(m.module, g.elt.args[1], strict=False)
+  return None
+
+
+def _alternatives(e):
+  """Expressions a value expression can evaluate to: arms of conditional expressions, operands
+  of and/or."""
+  if isinstance(e, ast.IfExp):
+    return _alternatives(e.body) + _alternatives(e.orelse)
+  if isinstance(e, ast.BoolOp):
+    return [a for v in e.values for a in _alternatives(v)]
+  return [e]
+
+
+def _element_tags(w, tg, fi, r, e, nid):
+  """Tags of the elements of container expression e (a tuple/list being returned) at node nid.
+  Elements copied raw from something opaque (a parameter, the result of an external call) are
+  'any'; a repo helper's result or an untraceable local is undecided (AnalysisError)."""
+  inner = e
+  while isinstance(inner, ast.Call) and dotted(inner.func) in ("tuple", "list", "sorted") and \
+      len(inner.args) == 1:
+    inner = inner.args[0]
+  if isinstance(inner, (ast.GeneratorExp, ast.ListComp, ast.SetComp)):
+    return tg.tags(inner.elt, fi, nid)
+  if isinstance(inner, (ast.List, ast.Tuple)):
+    out = set()
+    for x in inner.elts:
+      out |= tg.tags(x, fi, nid)
+    return out
+  if isinstance(inner, ast.Call):
+    if repo_callees(w, w.fn_of(fi), inner):
+      raise AnalysisError("%s: the elements of %s come from a helper that is not followed"
+                          % (fi.qualname, short(e, 50)))
+    return {"any"}           # items handed over as an external call produced them
+  if isinstance(inner, ast.Name):
+    if inner.id in r.params and not r.defs.get(inner.id):
+      return {"any"}         # the caller's items, as they came
+    els = r.elements(inner, nid)
+    if els is None:
+      raise AnalysisError("%s: how the elements of %s are produced is not understood"
+                          % (fi.qualname, short(e, 50)))
+    out = set()
+    for el in els:
+      out |= tg.tags(el.elt, fi, el.node.id if el.node is not None else nid)
+    return out
+  raise AnalysisError("%s: the elements of %s are not understood" % (fi.qualname, short(e, 50)))
+
+
 def r2_tags(run, w):
   R2 = run.rule("C22-R2", "every value returned by do_convert has an outer type accepted by the "
                 "type's is_right_type, or is a str (alt-text)", floor=30)
@@ -433,6 +502,7 @@ def r2_tags(run, w):
                       ci.methods.get("is_right_type") is None):
       continue    # inherits both: checked on the defining class
     accept = _accept_set(w, ci)
+    elem_accept = _elem_accept(w, ci)
     r = res_of(w, w.fn_of(dc))
     for n in [x for x in r.cfg.nodes if x.kind == "return"]:
       v = n.stmt.value
@@ -458,6 +528,22 @@ def r2_tags(run, w):
              "return " + short(r.expand(v, n.id) if v is not None else v, 70),
              "result is of the column type or alt-text (tags: %s)" % ",".join(sorted(tags)), ok,
              witness=why, fi=dc, node=n.stmt)
+      # containers: what is_right_type demands of the elements
+      if elem_accept is not None and v is not None and ok:
+        def elems(n=n, v=v):
+          for alt in _alternatives(r.expand(v, n.id)):
+            at = tg.tags(alt, dc, n.id)
+            if not (at and at <= {"tuple", "list"}):
+              continue
+            et = _element_tags(w, tg, dc, r, alt, n.id)
+            bad = et - elem_accept - ({"shortint"} if "int" in elem_accept else set())
+            run.ob(R2, "%s (do_convert of %s)" % (ci.qualname, dc.qualname),
+                   "elements of " + short(alt, 60),
+                   "every element of a returned list/tuple has a type is_right_type accepts "
+                   "(element tags: %s)" % ",".join(sorted(et)), not bad,
+                   witness=None if not bad else "elements may be %s; is_right_type requires %s"
+                   % (",".join(sorted(bad)), ",".join(sorted(elem_accept))), fi=dc, node=n.stmt)
+        run.guard(elems)
     if r.falls_off_end() and accept is not None and "none" not in accept:
       run.ob(R2, "%s (do_convert of %s)" % (ci.qualname, dc.qualname), "implicit return None",
              "result is of the column type or alt-text (tags: none)", False, fi=dc)
@@ -505,6 +591,8 @@ VARIANTS = [
         # If converting to string failed, we should still produce something.
         return objtypes.safe_repr(value_to_convert)""", """      return str(value_to_convert)""", "C22-R1"),
   ("alttext-via-text-type", UT, "        return str(value_to_convert)\n", "        return Text.do_convert(value_to_convert)\n", "C22-R1"),
+  ("choicelist-items-raw", UT, "          return tuple(str(item) for item in json.loads(value)) or None",
+   "          return tuple(json.loads(value)) or None", "C22-R2"),
   ("errors-converted", UT, """    if isinstance(value_to_convert, objtypes.RaisedException):
       return value_to_convert
 """, "", "C22-R1"),
